@@ -227,6 +227,8 @@ def base_cfgs(seed, nrand, eager_limit, **extra):
     for i, k in enumerate((2, 3, 5, 8)[: max(1, nrand // 4)]):
         col = {'ev': {'raise_at': [k]}, 'ev2': {'mode': 'yield'}} if i % 2 == 0 else {'save': {'raise_at': [k]}, 'ev2': {'mode': 'yield'}}
         cfgs.append(dict(policy=['hold' if i % 2 == 0 else 'random', seed * 100003 + 900 + i, 0.8, 'ev2'], collab=col, faulty=True, **extra))
+    # a second manager that raises in on_pipeline_complete: the first, well-behaved one still sees every event once
+    cfgs.append(dict(policy=['random', seed * 100003 + 950, 0.8], collab={'ev2': {'raise_on_complete': True}}, faulty=True, **extra))
     return cfgs
 
 
